@@ -205,6 +205,19 @@ func c04Socket(c *core.Collector, x *Ctx) {
 			return
 		}
 		f := t.Frame(0x0200, uint16(k), c04Body(core.NewRand(c.Seed, "c04poison", uint64(k)), 2, 28+k%40))
+		if k%2 == 1 {
+			// the other way a connection leaves something behind: it goes away in the middle of a frame (whatever per-connection
+			// state the server recycles must not reach the next connection with these bytes — or their length — in it)
+			t.Write(f[:len(f)/2+k%7])
+			time.Sleep(3 * time.Millisecond)
+			if k%4 == 1 {
+				t.Reset()
+			} else {
+				t.Close()
+			}
+			c.Count("connections_ended_in_the_middle_of_a_frame_before_the_streams", 1)
+			return
+		}
 		f[len(f)-2] ^= 0x55 // wrong check code
 		if f[len(f)-2] == 0x7e || f[len(f)-2] == 0x7d {
 			f[len(f)-2] = 0x11
@@ -214,7 +227,7 @@ func c04Socket(c *core.Collector, x *Ctx) {
 		t.Close()
 		c.Count("connections_ended_by_a_parse_error_before_the_streams", 1)
 	}
-	for k := 0; k < 8; k++ {
+	for k := 0; k < 24; k++ {
 		poison(k)
 	}
 	nstreams := c.N(24, 160)
@@ -229,7 +242,7 @@ func c04Socket(c *core.Collector, x *Ctx) {
 	perStream := map[int]int{}
 	core.ParallelFor(len(jobs), 12, func(i int) {
 		j := jobs[i]
-		if i%16 == 5 {
+		if i%8 == 5 {
 			poison(100 + i)
 		}
 		cid := x.Batch*100000 + i
